@@ -320,7 +320,7 @@ def argUsage (f : Path) (a : Arg) : Event :=
 def testEvents (f : Path) (modNames : List String) (name : String) (args : Args) (body : List Stmt)
     (r : Range) : List Event :=
   if name.startsWith "test_" then
-    ((args.all.filter (fun a => a.name != "self")).map (argUsage f)) ++
+    ((args.all.filter (fun a => a.name != "self" && !a.hasDefault)).map (argUsage f)) ++
     [.scan ⟨name, r.line, ["self", "request"] ++ args.all.map (·.name),
       localsOf body ++ modNames.map (fun n => (n, 0)), refsOfStmts body⟩]
   else []
@@ -333,7 +333,7 @@ def fixtureDef (f : Path) (lines : List Chars) (name : String) (deco : Expr) (ar
     endChar := (findFunctionNamePosition lines r.line name.toList).2,
     docstring := doc, returnType := returnTypeOf returns body,
     thirdParty := false, plugin := false,
-    deps := (args.all.map (·.name)).filter (fun a => a != "self" && a != "request"),
+    deps := ((args.all.filter (fun a => !a.hasDefault)).map (·.name)).filter (fun a => a != "self" && a != "request"),
     scope := (fixtureScopeOf deco).getD .function,
     yieldLine := yieldLine body, autouse := fixtureAutouseOf deco }
 
@@ -341,7 +341,7 @@ def fixtureDef (f : Path) (lines : List Chars) (name : String) (deco : Expr) (ar
 def fixtureEvents (f : Path) (lines : List Chars) (modNames : List String) (name : String) (deco : Expr)
     (args : Args) (returns : Option Expr) (body : List Stmt) (r : Range) (doc : Option String) : List Event :=
   [.defn (fixtureDef f lines name deco args returns body r doc)] ++
-  ((args.all.filter (fun a => a.name != "self" && a.name != "request")).map (argUsage f)) ++
+  ((args.all.filter (fun a => a.name != "self" && a.name != "request" && !a.hasDefault)).map (argUsage f)) ++
   [.scan ⟨name, r.line, ["self", "request", name] ++ args.all.map (·.name),
     localsOf body ++ modNames.map (fun n => (n, 0)), refsOfStmts body⟩]
 
@@ -354,8 +354,9 @@ def visitFunction (f : Path) (lines : List Chars) (modNames : List String)
   match decos.find? isFixtureDecorator with
   | none => marks ++ testEvents f modNames name args body r
   | some deco =>
-    marks ++ fixtureEvents f lines modNames name deco args returns body r (docstringOf body) ++
-      testEvents f modNames name args body r
+    -- a decorated fixture is a fixture whatever its name (since the E5 repair the `is_test` branch
+    -- is not taken for it: its parameters used to be recorded twice)
+    marks ++ fixtureEvents f lines modNames name deco args returns body r (docstringOf body)
 
 /-- the definition an assignment-style fixture records for one target -/
 def assignTargetDef (f : Path) (r : Range) : Expr → Option Def
